@@ -77,6 +77,141 @@ func redisShape(ev []string) string {
 	return "one atomic membership group, then counter round trips only"
 }
 
+// redisEventsStructured is redisEvents with the bodies of `if` statements that end in break/continue/return enclosed
+// in "(" … ")": what happens on such a path does not reach the code after the `if`.
+func redisEventsStructured(list []ast.Stmt, local map[string]*ast.FuncDecl) []string {
+	var out []string
+	terminates := func(b *ast.BlockStmt) bool {
+		if b == nil || len(b.List) == 0 {
+			return false
+		}
+		switch x := b.List[len(b.List)-1].(type) {
+		case *ast.ReturnStmt:
+			return true
+		case *ast.BranchStmt:
+			return x.Tok == token.BREAK || x.Tok == token.CONTINUE
+		}
+		return false
+	}
+	exprEvents := func(n ast.Node) []string {
+		if n == nil {
+			return nil
+		}
+		return redisEvents(&ast.BlockStmt{List: []ast.Stmt{&ast.ExprStmt{X: &ast.CallExpr{Fun: &ast.FuncLit{Type: &ast.FuncType{}, Body: &ast.BlockStmt{List: []ast.Stmt{wrapNode(n)}}}}}}}, local, 0)
+	}
+	for _, st := range list {
+		switch x := st.(type) {
+		case *ast.IfStmt:
+			if x.Init != nil {
+				out = append(out, exprEvents(x.Init)...)
+			}
+			out = append(out, exprEvents(x.Cond)...)
+			body := redisEventsStructured(x.Body.List, local)
+			if terminates(x.Body) {
+				out = append(out, "(")
+				out = append(out, body...)
+				out = append(out, ")")
+			} else {
+				out = append(out, body...)
+			}
+			switch e := x.Else.(type) {
+			case *ast.BlockStmt:
+				eb := redisEventsStructured(e.List, local)
+				if terminates(e) {
+					out = append(out, "(")
+					out = append(out, eb...)
+					out = append(out, ")")
+				} else {
+					out = append(out, eb...)
+				}
+			case *ast.IfStmt:
+				out = append(out, redisEventsStructured([]ast.Stmt{e}, local)...)
+			}
+		case *ast.ForStmt:
+			out = append(out, redisEventsStructured(x.Body.List, local)...)
+		case *ast.RangeStmt:
+			out = append(out, redisEventsStructured(x.Body.List, local)...)
+		case *ast.BlockStmt:
+			out = append(out, redisEventsStructured(x.List, local)...)
+		default:
+			out = append(out, exprEvents(st)...)
+		}
+	}
+	return out
+}
+
+// wrapNode makes a statement out of a statement or an expression (for redisEvents, which inspects a block)
+func wrapNode(n ast.Node) ast.Stmt {
+	switch x := n.(type) {
+	case ast.Stmt:
+		return x
+	case ast.Expr:
+		return &ast.ExprStmt{X: x}
+	}
+	return &ast.EmptyStmt{}
+}
+
+var redisReadCmds = map[string]bool{"HKEYS": true, "HGETALL": true, "HLEN": true, "HGET": true, "GET": true, "EXISTS": true}
+
+// redisOptimisticShape judges the collector: every membership write is sent inside a MULTI … EXEC group that was
+// opened under a WATCH (so that it goes through only if what was read is still there), and counters are changed
+// only by separate commands outside the groups (reply-driven, like everywhere else in this store).
+func redisOptimisticShape(ev []string) string {
+	watched, inMulti, groups := false, false, 0
+	type saved struct{ w, m bool }
+	var stack []saved
+	for _, e := range ev {
+		if e == "(" {
+			stack = append(stack, saved{watched, inMulti})
+			continue
+		}
+		if e == ")" {
+			if inMulti {
+				return "a path leaves with a group still open"
+			}
+			watched, inMulti = stack[len(stack)-1].w, stack[len(stack)-1].m
+			stack = stack[:len(stack)-1]
+			continue
+		}
+		cmd := e[2:]
+		switch {
+		case e == "D:WATCH":
+			watched = true
+		case e == "D:UNWATCH":
+			watched = false
+		case e == "S:MULTI":
+			if !watched {
+				return "MULTI without a WATCH before it"
+			}
+			inMulti = true
+		case e == "D:EXEC":
+			if !inMulti {
+				return "EXEC without MULTI"
+			}
+			inMulti, watched = false, false
+			groups++
+		case redisReadCmds[cmd]:
+		case redisCounterCmds[cmd]:
+			if inMulti || e[:2] != "D:" {
+				return "counter command " + cmd + " inside a command group"
+			}
+		case cmd == "?":
+			return "command name not a literal"
+		default: // a membership write
+			if !inMulti || e[:2] != "S:" {
+				return "membership command " + cmd + " outside a watched MULTI … EXEC group"
+			}
+		}
+	}
+	if inMulti {
+		return "group not closed by EXEC"
+	}
+	if groups == 0 {
+		return "no command group"
+	}
+	return "every membership write inside a watched MULTI … EXEC group, counters outside"
+}
+
 func redisCommandGroups(repo string) (interface{}, error) {
 	files, err := filepath.Glob(filepath.Join(repo, "storage/redis", "*.go"))
 	if err != nil {
@@ -106,6 +241,11 @@ func redisCommandGroups(repo string) (interface{}, error) {
 			continue
 		}
 		res[m] = redisShape(redisEvents(fd.Body, local, 0))
+	}
+	if fd, ok := local["collectGarbage"]; ok {
+		res["collectGarbage"] = redisOptimisticShape(redisEventsStructured(fd.Body.List, local))
+	} else {
+		res["collectGarbage"] = "method not found"
 	}
 	return res, nil
 }
